@@ -67,6 +67,13 @@ type fieldPlan struct {
 	// (constant-true at plan time, the common case).
 	skipPredicate func(map[string]interface{}) bool
 
+	// occPredicates[i] is the predicate of occurrence fieldASTs[i] (its own
+	// directives AND-ed with those of the enclosing fragments; nil ⇒
+	// always included). skipPredicate is their disjunction: a response
+	// key is present iff at least one occurrence is included, and each
+	// occurrence contributes its sub-selection only when it is included.
+	occPredicates []func(map[string]interface{}) bool
+
 	// sub is set when returnType (after unwrapping NonNull and List)
 	// resolves to a single concrete *Object; abstractAlternatives is
 	// set when it resolves to an Interface or Union; both nil for
@@ -207,7 +214,7 @@ func (p *Plan) planMergedFieldChildren(fp *fieldPlan) {
 	// Object returns resolve to a single concrete type, so plan their
 	// sub-selection eagerly.
 	if obj, ok := unwrapNamedType(fp.returnType).(*Object); ok {
-		fp.sub = p.planMergedSelectionsForType(obj, fp.fieldASTs)
+		fp.sub = p.planMergedSelectionsForType(obj, fp)
 		return
 	}
 	// Abstract returns (Interface / Union) are planned lazily, per
@@ -234,7 +241,7 @@ func (p *Plan) abstractAlternative(fp *fieldPlan, runtimeType *Object) *selectio
 	if sub, ok := fp.abstractAlternatives[runtimeType]; ok {
 		return sub
 	}
-	sub := p.planMergedSelectionsForType(runtimeType, fp.fieldASTs)
+	sub := p.planMergedSelectionsForType(runtimeType, fp)
 	fp.abstractAlternatives[runtimeType] = sub
 	return sub
 }
@@ -243,15 +250,17 @@ func (p *Plan) abstractAlternative(fp *fieldPlan, runtimeType *Object) *selectio
 // SelectionSet under one concrete parent type, returning a
 // selectionPlan that mirrors what completeObjectValue's runtime
 // collectFields loop would produce.
-func (p *Plan) planMergedSelectionsForType(parentType *Object, fieldASTs []*ast.Field) *selectionPlan {
+func (p *Plan) planMergedSelectionsForType(parentType *Object, merged *fieldPlan) *selectionPlan {
 	sp := &selectionPlan{parentType: parentType}
 	keyed := map[string]int{}
 	visited := map[string]bool{}
-	for _, f := range fieldASTs {
+	for i, f := range merged.fieldASTs {
 		if f == nil || f.SelectionSet == nil {
 			continue
 		}
-		p.collectInto(parentType, f.SelectionSet, visited, sp, keyed, nil)
+		// the sub-selection of an occurrence counts only when that
+		// occurrence itself is included
+		p.collectInto(parentType, f.SelectionSet, visited, sp, keyed, merged.occPredicates[i])
 	}
 	if len(sp.fields) == 0 {
 		return nil
@@ -296,7 +305,11 @@ func (p *Plan) collectInto(parentType *Object, selectionSet *ast.SelectionSet, v
 				// first AST's sub-selection, which is correct because
 				// validation rules guarantee mergeable selections refer
 				// to the same field).
-				sp.fields[idx].fieldASTs = append(sp.fields[idx].fieldASTs, sel)
+				merged := sp.fields[idx]
+				occPred := andPredicates(parentPred, pred)
+				merged.fieldASTs = append(merged.fieldASTs, sel)
+				merged.occPredicates = append(merged.occPredicates, occPred)
+				merged.skipPredicate = orPredicates(merged.skipPredicate, occPred)
 				continue
 			}
 			fieldName := ""
@@ -309,12 +322,14 @@ func (p *Plan) collectInto(parentType *Object, selectionSet *ast.SelectionSet, v
 				// fieldDef so ExecutePlan can mirror the
 				// hasNoFieldDefs branch (skip the response key).
 			}
+			occPred := andPredicates(parentPred, pred)
 			fp := &fieldPlan{
 				responseKey:   responseKey,
 				fieldName:     fieldName,
 				fieldDef:      fieldDef,
 				fieldASTs:     []*ast.Field{sel},
-				skipPredicate: andPredicates(parentPred, pred),
+				skipPredicate: occPred,
+				occPredicates: []func(map[string]interface{}) bool{occPred},
 			}
 			if fieldDef != nil {
 				fp.returnType = fieldDef.Type
@@ -356,11 +371,15 @@ func (p *Plan) collectInto(parentType *Object, selectionSet *ast.SelectionSet, v
 				continue
 			}
 			visitedFragmentNames[fragName] = true
-			if !planFragmentMatches(*p.schema, fragDef.TypeCondition, parentType) {
-				continue
+			spreadPred := andPredicates(parentPred, pred)
+			if planFragmentMatches(*p.schema, fragDef.TypeCondition, parentType) && fragDef.GetSelectionSet() != nil {
+				p.collectInto(parentType, fragDef.GetSelectionSet(), visitedFragmentNames, sp, keyed, spreadPred)
 			}
-			if fragDef.GetSelectionSet() != nil {
-				p.collectInto(parentType, fragDef.GetSelectionSet(), visitedFragmentNames, sp, keyed, andPredicates(parentPred, pred))
+			if spreadPred != nil {
+				// Whether this spread is included is only known per request, so
+				// it must not hide a later spread of the same fragment: the mark
+				// only guards against cycles while the fragment is being walked.
+				delete(visitedFragmentNames, fragName)
 			}
 		}
 	}
@@ -380,6 +399,20 @@ func andPredicates(a, b func(map[string]interface{}) bool) func(map[string]inter
 	return func(vars map[string]interface{}) bool {
 		if !a(vars) {
 			return false
+		}
+		return b(vars)
+	}
+}
+
+// orPredicates returns a predicate that is true when either input is
+// true. nil is the constant-true predicate, so it absorbs the other.
+func orPredicates(a, b func(map[string]interface{}) bool) func(map[string]interface{}) bool {
+	if a == nil || b == nil {
+		return nil
+	}
+	return func(vars map[string]interface{}) bool {
+		if a(vars) {
+			return true
 		}
 		return b(vars)
 	}
